@@ -849,6 +849,7 @@ void Exec::run_op(const Op& op) {
       bool fired = op_fault_fired();
       if (vfs_open_streams() != 0)
         violation("stream-leak", "Crystal_ReadFile", "%d stream(s) left open after the call returned %d (%s)", vfs_open_streams(), ret, why);
+      if (cls == EITHER_BUT_FAITHFUL && !fired) SH->probes[ret == 1 ? PR_LAYOUT_VARIANT_ACCEPTED : PR_LAYOUT_VARIANT_REJECTED]++;
       if (eio_hits) SH->probes[PR_READ_EIO]++;
       if (ret == 0 && truncated) SH->probes[PR_READ_TRUNC_REJECT]++;
       if (ret == 1 && contents.size() >= 2) SH->probes[PR_READ_OK_MULTI]++;
